@@ -80,6 +80,19 @@ type sEmbPtr struct {
 	Q int32 `nbt:"q"`
 }
 
+type Inner3 struct {
+	P int32   `nbt:"p"`
+	R string  `nbt:"r"`
+	S []int16 `nbt:"s"`
+}
+
+// an embedded pointer struct several of whose fields are in the document: the struct is allocated once, at its
+// first key, and the later keys go into the same one
+type sEmbPtr3 struct {
+	*Inner3
+	Q int32 `nbt:"q"`
+}
+
 type UpperInt int32
 
 type sEmbNonStruct struct {
@@ -188,6 +201,11 @@ func staticCases(c *vm.Ctx, r *vm.Rand) []staticCase {
 			out = append(out, staticCase{name: "embedded-pointer-struct-absent", t: reflect.TypeOf(sEmbPtr{}), want: sEmbPtr{Q: q},
 				tree: comp(ent("q", refnbt.In(q)), ent("other", refnbt.In(p)))})
 		}
+	}
+	{
+		p, q, rr, sh := i32(), i32(), "r"+str(), i16()
+		out = append(out, staticCase{name: "embedded-pointer-struct-several-fields", t: reflect.TypeOf(sEmbPtr3{}), want: sEmbPtr3{Inner3: &Inner3{P: p, R: rr, S: []int16{sh, 7}}, Q: q},
+			tree: comp(ent("p", refnbt.In(p)), ent("q", refnbt.In(q)), ent("r", refnbt.St(rr)), ent("s", &refnbt.Value{Tag: refnbt.List, Elem: refnbt.Short, List: []*refnbt.Value{refnbt.Sh(sh), refnbt.Sh(7)}}), ent("other", refnbt.B(1)))})
 	}
 	{
 		u, q := i32(), i32()
